@@ -560,8 +560,8 @@ def _leaves(tree):
 # Known failure classes (root causes), in priority order.  A failing clause is attributed to a class
 # only when the case satisfies the class's input predicate; a failing clause that cannot be attributed
 # makes the signature "unclassified" and is therefore never hidden by known_findings.json.
-CLASSES = ["U2:fiber-shape-of-all-default-nest", "U1t:uncompress-of-all-default-tensor-depth>=2",
-           "Y1:yaml-load-of-tuple-coordinates", "Y3:default-not-carried-by-dict-or-yaml"]
+CLASSES = ["U2:fiber-shape-of-all-default-nest", "Y1:yaml-load-of-tuple-coordinates",
+           "Y3:default-not-carried-by-dict-or-yaml"]
 
 
 def _attribute(case, clause):
@@ -569,8 +569,6 @@ def _attribute(case, clause):
     if op == "fromU":
         alldef = all(x == case["dflt"] for x in _flat(case["nest"]))
         deep = len(case["dims"]) >= 2
-        if clause in ("uncompress", "uncompress-noarg") and alldef and deep and case["kind"] == "tensor":
-            return CLASSES[1]
         if alldef and deep and case["kind"] == "fiber" and impl.get("shape") == [case["dims"][0]]:
             # the one-element shape itself, and uncompress() without argument which uses it
             if clause in ("shape", "uncompress-noarg"):
@@ -579,11 +577,11 @@ def _attribute(case, clause):
         orig = case.get("orig") or {}
         tup = _has_tuple(orig.get("tree")) or any(isinstance(x, list) for x in orig.get("shape", []))
         if clause == "yaml-loads" and tup:
-            return CLASSES[2]
+            return CLASSES[1]
         odflt = orig.get("dflt", 0)
         if clause in ("yaml-equal", "dict-roundtrip-equal") and odflt != 0 and \
                 any(v == 0 or v == odflt for v in _leaves(orig.get("tree"))):
-            return CLASSES[3]
+            return CLASSES[2]
     return None
 
 
